@@ -43,6 +43,12 @@ def last_stores(mf) -> Dict[str, list]:
     out: Dict[str, list] = {}
     for e in mf.stores:
         out.setdefault(e.data['field'], []).append(e)
+    # a field that ends up holding the very value it held on entry (stored back unchanged, or swapped away and back) is not written by the method
+    init = getattr(mf, 'initial_fields', None) or {}
+    for f in list(out):
+        last = out[f][-1]
+        if f in init and not last.guard and (last.data['value'] is init[f] or veq(last.data['value'], init[f])) and len(out[f]) > 1:
+            del out[f]
     return out
 
 
